@@ -154,6 +154,9 @@ def case_history(ctx, case):
         raise AssertionError(style)
 
     def actual(a):
+        if P in a.components and rng.random() < 0.05:
+            ctx.count('deprecated_alias_calls')
+            check(tuple(reps.deprecated_call(a[P].getPosition)) == tuple(a[P].xyz()), 'the deprecated getPosition() differs from xyz()')
         return a[P].xyz() if P in a.components else None
 
     from vlib import reps
